@@ -223,6 +223,68 @@ def selection_part(ck, tier):
                 idents.append({"case": case, "n": n, "d": d, "optimizer": opt, "cross_val": cv, "kernel": kern.__name__, "mean": mean.__name__, "bounds_given_by_user_for": user,
                                "hyperpars": hp.tolist(), "bounds": b.tolist(), "score": s_res, "score_at_centre": s_cen})
                 ck.case(("select", case, opt, cv))
+    # the multi-start optimiser on several processes: the centre of the bounds box is among the starting points handed to the workers
+    import inference.gp.regression as _reg
+
+    class _SerialPool:
+        seen = []
+
+        def __init__(self, n):
+            self.n = n
+
+        def map(self, fn, items):
+            items = list(items)
+            _SerialPool.seen.append([np.array(v, dtype=float) for v in items])
+            return [fn(v) for v in items]
+
+        def imap(self, fn, items, chunksize=1):
+            return iter(self.map(fn, items))
+
+        imap_unordered = imap
+
+        def starmap(self, fn, items):
+            items = [tuple(v) for v in items]
+            _SerialPool.seen.append([np.array(v[0], dtype=float) for v in items])
+            return [fn(*v) for v in items]
+
+        def close(self):
+            pass
+
+        def join(self):
+            pass
+
+        def terminate(self):
+            pass
+
+        def __enter__(self):
+            return self
+
+        def __exit__(self, *a):
+            return False
+    real_pool = _reg.Pool
+    try:
+        _reg.Pool = _SerialPool
+        for n_starts, n_proc in ((3, 2), (5, 2), (4, 3)):
+            _SerialPool.seen.clear()
+            ck.case(("select-pool", n_starts, n_proc))
+            x = np.linspace(-2, 2, 7)
+            y = np.sin(x) + 0.05 * np.cos(5 * x)
+            np.random.seed(77 + n_starts)
+            with warnings.catch_warnings(), np.errstate(all="ignore"):
+                warnings.simplefilter("ignore")
+                gp = GpRegressor(x=x, y=y, y_err=np.full(7, 0.05), kernel=SquaredExponential, mean=ConstantMean, optimizer="bfgs", n_starts=n_starts,
+                                 n_processes=n_proc)
+            b = np.array(gp.hp_bounds, dtype=float)
+            centre = 0.5 * (b[:, 0] + b[:, 1])
+            starts = _SerialPool.seen[-1] if _SerialPool.seen else []
+            if len(starts) != n_starts or not any(np.allclose(v, centre, rtol=0, atol=1e-12) for v in starts):
+                ck.violation("multi-start optimiser on several processes: every requested start is run and the centre of the bounds box is one of them",
+                             {"n_starts": n_starts, "n_processes": n_proc, "starts_handed_to_the_workers": len(starts),
+                              "centre_among_them": bool(any(np.allclose(v, centre, rtol=0, atol=1e-12) for v in starts))}, site="GpRegressor.multistart_bfgs")
+    except Exception as ex:
+        ck.violation("automatic hyper-parameter selection raised (several processes)", {"error": repr(ex)[:300]}, site="GpRegressor.select")
+    finally:
+        _reg.Pool = real_pool
     d_ = scratch("c11_")
     path = os.path.join(d_, "trace.ndjson")
     with open(path, "w") as fh:
